@@ -32,6 +32,27 @@ PARTIALS = [
     ('2004-02', {'year': 2004, 'month': 2}, None), ('June 2100', {'year': 2100, 'month': 6}, None),
     ('10h36m', {'hour': 10, 'minute': 36}, None), ('T10:36', {'hour': 10, 'minute': 36}, None),
 ]
+def _grammar_partials():
+    """partial texts from a small grammar: [weekday] [date part] [time part] - every combination"""
+    wds = [('', None), ('Mon ', 0), ('Friday ', 4), ('Sun, ', 6)]
+    dates = [('', {}), ('Feb', {'month': 2}), ('Feb 2003', {'month': 2, 'year': 2003}), ('2003', {'year': 2003}),
+             ('Sep 30', {'month': 9, 'day': 30}), ('30', {'day': 30}), ('Feb 29', {'month': 2, 'day': 29}),
+             ('2004-02', {'year': 2004, 'month': 2}), ('December 2004', {'year': 2004, 'month': 12}),
+             ('1 Apr', {'month': 4, 'day': 1})]
+    times = [('', {}), (' 10:36', {'hour': 10, 'minute': 36}), (' 10:36:28', {'hour': 10, 'minute': 36, 'second': 28}),
+             (' 10pm', {'hour': 22}), (' 12 am', {'hour': 0}), (' 10h36m', {'hour': 10, 'minute': 36}), (' 00:00:00.5', {'hour': 0, 'minute': 0, 'second': 0, 'microsecond': 500000})]
+    out = []
+    for (w, wd), (d, df), (t, tf) in itertools.product(wds, dates, times):
+        text = (w + d + t).strip().strip(',')
+        if not text:
+            continue
+        f = dict(df)
+        f.update(tf)
+        out.append((text, f, wd))
+    return out
+
+
+PARTIALS += [p for p in _grammar_partials() if p[0] not in set(x[0] for x in PARTIALS)]
 DEFAULTS = [D.datetime(2003, 1, 31, 1, 2, 3, 4), D.datetime(2003, 3, 30, 23, 59, 59, 999999), D.datetime(2004, 1, 29, 12, 0),
             D.datetime(2003, 1, 29, 0, 0), D.datetime(2003, 5, 31), D.datetime(2000, 2, 29, 6, 7, 8), D.datetime(2003, 9, 25, 10, 0),
             D.datetime(2003, 12, 28, 0, 0, 1), D.datetime(2003, 10, 31, 5), D.datetime(1900, 1, 30), D.datetime(2100, 3, 31),
